@@ -160,7 +160,7 @@ def sh3(prog):
                     pol = val != "0"
                     break
             if pol is None:
-                errs.append("line %d: node not under a polarity test" % cs.line)
+                errs.append("?line %d: node not under a polarity test" % cs.line)
                 continue
             seen.add(pol)
             lo, hi = strip(cs.args[1]), strip(cs.args[2])
@@ -170,7 +170,7 @@ def sh3(prog):
             if not pol and not (hi_false and not lo_false):
                 errs.append("a negative implied literal must be node(l, rest, ⊥); found node(l, %s, %s)" % (show(lo)[:30], show(hi)[:30]))
         if seen != {True, False}:
-            errs.append("both polarities expected")
+            errs.append("?both polarities expected")
         out.append(inst("SH", "%s:SH3:implied-literal" % fn.npath, VIOLATION if errs else OK, fn, None,
                         "; ".join(errs) if errs else "implied literal l ∧ rest: positive ↦ node(l, ⊥, rest), negative ↦ node(l, rest, ⊥)"))
     return out
@@ -382,7 +382,7 @@ def cc(prog):
         joins = [cs for cs in te.calls if cs.callee.name in ("and", "or", "xor", "iff") and (cs.callee.trait or "").startswith("builder")]
         errs = []
         if len(joins) != 1 or joins[0].callee.name != "and":
-            errs.append("halves are joined with %s" % [c.callee.name for c in joins])
+            errs.append("%shalves are joined with %s" % ("?" if not joins else "", [c.callee.name for c in joins]))
         else:
             a = [strip(x) for x in joins[0].args[1:]]
             if not all(x[0] == "field" and "Some" in show(x) for x in a) or a[0] == a[1]:
